@@ -255,7 +255,7 @@ def _mentions(t, name):
 
 # -- K6: importer folds every square exactly once ----------------------------------------
 
-def rule_k6(ctx, F, parts=("rank", "slots", "final", "side")):
+def rule_k6(ctx, F, parts=("rank", "slots", "final", "side", "init")):
     fn = F.fn("chess::Game::new")
     body = fn["hir"]["body"]
     env = hir.Env(fn["hir"], F)
@@ -320,12 +320,37 @@ def rule_k6(ctx, F, parts=("rank", "slots", "final", "side")):
     # final completeness test
     cnf = [hir.canon(hir.resolve_consts(sym(x["cond"]), F)) for x, _ in hir.walk(body) if x.get("k") == "If"]
     conds = [hir.fmt(c, 200) for c in cnf]
-    parts = {("bin", "!=", ("var", "row"), ("lit", 0)), ("bin", "!=", ("var", "col"), ("lit", 8))}
-    has = any(c[0] == "bin" and c[1] == "||" and {c[2], c[3]} == parts for c in cnf)
+    # decided on the values: some test that leaves with an error lets (row 0, col 8) pass and refuses a scan that ended anywhere else
+    has = False
+    for x, _ in hir.walk(body):
+        if x.get("k") == "If" and hir.diverges(x["then"]) and any(y.get("k") == "Ret" for y, _ in hir.walk(x["then"])):
+            c = hir.resolve_consts(sym(x["cond"]), F)
+            if not (hir.contains(c, ("var", "row")) and hir.contains(c, ("var", "col"))):
+                continue
+            ev = lambda r_, c_: hir.fold(c, {("var", "row"): ("lit", r_), ("var", "col"): ("lit", c_)})
+            if ev(0, 8) == ("lit", False) and all(ev(r_, c_) == ("lit", True) for r_, c_ in ((0, 7), (1, 8), (3, 0), (0, 0), (7, 8), (1, 0))):
+                has = True
     if "final" in parts:
       ctx.check("C04.K6", "final-board-size-test", has, fn=fn["path"], file=fn["file"],
               what="Game::new no longer checks that the scan ended on (row 0, col 8)",
               expected="row != 0 || col != 8 => error", found=[c for c in conds if "row" in c or "col" in c][:4])
+    # the accumulator the keys are folded into starts empty: the local that becomes Game.hash is initialised with 0
+    if "init" in parts:
+        init = None
+        for n, _ in hir.walk(body):
+            if n.get("k") == "Struct" and (n["to"].get("path") or "").endswith("chess::Game"):
+                for f_ in n["fields"]:
+                    if f_["name"] == "hash":
+                        e_ = hir.strip(f_["e"])
+                        if e_.get("k") == "Path" and e_["to"].get("res") == "local":
+                            for m_, _ in hir.walk(body):
+                                if m_.get("k") == "SLet" and m_["pat"].get("k") == "PBind" and m_["pat"].get("id") == e_["to"]["id"] and m_.get("init") is not None:
+                                    init = hir.sym_int(hir.fold(hir.resolve_consts(sym(m_["init"]), F), {}))
+                        else:
+                            init = hir.sym_int(hir.fold(hir.resolve_consts(sym(f_["e"]), F), {}))
+        ctx.check("C04.K6", "hash-accumulator-starts-at-zero", init == 0, fn=fn["path"], file=fn["file"],
+                  what="the importer folds the keys of the position into an accumulator that does not start at 0: every hash is off by a "
+                       "constant from the combination of the published keys", expected=0, found=init)
     # side key iff Black, state key once
     side = [(n, anc) for n, anc in hir.walk(body) if n.get("k") == "AssignOp" and n.get("op") == "^="
             and sym(n["r"]) == ("const", "chess::zobrist::BLACK_TO_MOVE")]
